@@ -4,6 +4,11 @@
 //
 //	scrub x<hex>                  -> hex(Scrub(b))
 //	write <x..,x..,...>           -> o=<hex of everything that reached the sink> nl=<1 iff every sink Write ended with '\n'>
+//	lwrite <pieces> <cuts>        -> long lines in a compact (replayable) encoding, implementation only: pieces is a comma
+//	                                 list of x<hex> (literal bytes) and w<n>.<k> (n bytes of filler words, phase k:
+//	                                 byte j is ' ' when (j+k)%7 == 6, otherwise 'g'+(j+k)%13); the concatenation is the
+//	                                 stream; cuts is the ascending list of offsets where one Write ends and the next
+//	                                 begins ("-" = a single Write). Result as for write.
 //	conc <x..,x..;x..,x..;...>    -> concurrent writers (';' separates writers); every write is whole lines;
 //	                                 result = the sink's lines, sorted, as hex (multiset of lines) + nl flag
 package main
@@ -63,6 +68,46 @@ func payloads(t string) [][]byte {
 	return out
 }
 
+// filler: n bytes of lower-case words (letters g..s, never a hex digit, '.' or ':') separated by single spaces
+func filler(n, k int) []byte {
+	b := make([]byte, n)
+	for j := range b {
+		i := j + k
+		if i%7 == 6 {
+			b[j] = ' '
+		} else {
+			b[j] = byte('g' + i%13)
+		}
+	}
+	return b
+}
+
+// stream of an lwrite case
+func pieces(t string) ([]byte, bool) {
+	var out []byte
+	for _, p := range wire.List(t) {
+		if strings.HasPrefix(p, "w") {
+			nk := strings.Split(p[1:], ".")
+			if len(nk) != 2 {
+				return nil, false
+			}
+			n, err := strconv.Atoi(nk[0])
+			k, err2 := strconv.Atoi(nk[1])
+			if err != nil || err2 != nil || n < 0 || n > 1<<20 || k < 0 {
+				return nil, false
+			}
+			out = append(out, filler(n, k)...)
+			continue
+		}
+		b, err := wire.Payload(p)
+		if err != nil {
+			return nil, false
+		}
+		out = append(out, b...)
+	}
+	return out, true
+}
+
 // accepts: does Go's net package accept s as an IP address, optionally bracketed / with a port?
 func accepts(s string) bool {
 	if net.ParseIP(s) != nil {
@@ -92,6 +137,34 @@ func handle(args []string) string {
 		}
 		ip := net.IP(b)
 		return wire.Hex([]byte(ip.String())) + " " + wire.Hex([]byte((&net.TCPAddr{IP: ip, Port: port}).String()))
+	}
+	if len(args) == 3 && args[0] == "lwrite" {
+		st, ok := pieces(args[1])
+		if !ok {
+			return "!badcase"
+		}
+		s := &sink{nlOK: true}
+		ls := &safelog.LogScrubber{Output: s}
+		prev := 0
+		write := func(w []byte) bool {
+			w = append([]byte(nil), w...) // the caller may reuse its slice after Write returns
+			n, err := ls.Write(w)
+			return err == nil && n == len(w)
+		}
+		for _, c := range wire.List(args[2]) {
+			cut, err := strconv.Atoi(c)
+			if err != nil || cut < prev || cut > len(st) {
+				return "!badcase"
+			}
+			if !write(st[prev:cut]) {
+				return "!writeerr"
+			}
+			prev = cut
+		}
+		if !write(st[prev:]) {
+			return "!writeerr"
+		}
+		return "o=" + hexOrDash(s.all) + " nl=" + flag(s.nlOK)
 	}
 	if len(args) != 2 {
 		return "!badcase"
